@@ -332,6 +332,8 @@ inline bool run(vexec::Args& a, vexec::Out& o, MSSMNoFV_onshell& m)
             m.set_verbose_output(a.i() != 0);
          } else if (ins == "calc_masses") {
             m.calculate_masses();
+         } else if (ins == "clear_problems") {
+            m.get_problems().clear();
          } else if (ins == "calc_drbar") {
             m.calculate_DRbar_masses();
          } else if (ins == "convert") {
